@@ -134,6 +134,20 @@ int main()
 	while (std::getline(std::cin, line))
 	{
 		std::istringstream is0(line); std::string cmd0; is0 >> cmd0;
+		if (cmd0 == "GSEL")
+		{	// the real private RadixSorter<8>::pvSelectionSort on an array of 64-bit codes; ALL groupFunc calls are logged
+			size_t n; is0 >> n; std::vector<uint64_t> v(n + 2, 0x5555555555555555ull);
+			for (size_t i = 0; i < n; ++i) { ull x; is0 >> x; v[i + 1] = x; }
+			uint64_t* b = v.data() + 1; std::ostringstream os, og;
+			auto codeGetter = [] (uint64_t* p) { return *p; };
+			auto swapper = [] (uint64_t* x, uint64_t* y) { std::iter_swap(x, y); };
+			auto groupFunc = [b, &og] (uint64_t* p, size_t c) { og << (p - b) << ":" << c << " "; };
+			internal::RadixSorter<8>::pvSelectionSort<uint64_t>(b, n, codeGetter, swapper, groupFunc);
+			for (size_t i = 0; i < n; ++i) os << ull(b[i]) << (i + 1 < n ? " " : "");
+			std::string g = og.str(); if (!g.empty()) g.pop_back();
+			bool guards = v[0] == 0x5555555555555555ull && v[n + 1] == 0x5555555555555555ull;
+			printf("%s%s | %s\n", guards ? "" : "OOB ", os.str().c_str(), g.c_str()); continue;
+		}
 		if (cmd0 == "SCODE" || cmd0 == "UCODE")
 		{	// the real default code getter on one value: SCODE W x (intW_t) / UCODE W x (uintW_t)
 			int w; long long x; ull ux; ull code = 0;
